@@ -209,6 +209,7 @@ def install():
     async def _main_loop(self):
         if DRV is not None:
             DRV.before_iter(self)
+            await DRV.run_actions(self)
         await orig_ml(self)
         if DRV is not None:
             DRV.after_iter(self)
